@@ -264,6 +264,8 @@ class Extractor:
         if self.nodes > self.max_nodes:
             raise Unsupported("expression too large in %s" % body.key)
         if bb in path:
+            if getattr(self, "loops_ok", False):
+                return ("loop", bb)       # this branch runs into a loop: not followed
             raise Unsupported("loop through bb%d in %s" % (bb, body.key))
         path = path + (bb,)
         blk = body.blocks[bb]
